@@ -37,7 +37,36 @@ def run(prop: str, tier: str, repo_root: str, evidence_dir=None, selftest=True) 
         repo = Repo(repo_root, extra_files=EXTRA)
         rep.count("files", len([m for m in repo.modules if not m.startswith("@")]))
         rep.count("functions", len(repo.pkg_funcs()))
-        mod.check(repo, rep, tier)
+        try:
+            mod.check(repo, rep, tier)
+            first = rep.preview()
+            first_err = None
+        except AnalysisError as e:
+            first, first_err = 2, e
+        if first != 0:
+            # Second representation of the same program: private helpers put back at their call sites (sa/inline.py).
+            # A rule that is a necessary condition of the property may be decided on either text; an extract-function /
+            # split-function refactoring must not change a verdict.  The inlined text is only consulted when the
+            # program as written is not accepted, and it can only turn that outcome into "accepted" or into a violation.
+            try:
+                repo2 = Repo(repo_root, extra_files=EXTRA, inline=True)
+                rep2 = Report(prop, tier, repo_root, evidence_dir)
+                rep2.count("files", len([m for m in repo2.modules if not m.startswith("@")]))
+                rep2.count("functions", len(repo2.pkg_funcs()))
+                mod.check(repo2, rep2, tier)
+                second = rep2.preview()
+            except AnalysisError:
+                second, rep2, repo2 = 2, None, None
+            if rep2 is not None and repo2.inlined and (second == 0 or (first == 2 and second == 1)):
+                rep2.extra["representation"] = {
+                    "decided_on": "program with private helpers inlined at their call sites (sa/inline.py)",
+                    "as_written": {0: "accepted", 1: "violation", 2: "undecided"}[first] + (f" ({first_err})" if first_err else ""),
+                    "as_written_messages": ([f"{o.rule}: {o.what}" for o in rep.obl if o.verdict == "violation"][:6] + rep.undecided_msgs[:6] + [m for _, m in rep.floor_misses][:6]) if first_err is None else [str(first_err)],
+                    "inlined": repo2.inlined,
+                }
+                rep, repo = rep2, repo2
+            elif first_err is not None:
+                raise first_err
         st = None
         if tier == "thorough" and selftest and (rep.has_fresh_violation() or rep.undecided_msgs):
             # the self-test measures the checker against a tree on which the rules hold;
